@@ -164,6 +164,10 @@ func gen(t *rapid.T) Case {
 	d2 := tjson.Write(t, v2, u.Root, u, tjson.WOpts{Opts: o.Opts, UseNames: o.MapFieldWay}, false)
 	cs.Text2, cs.Want2, cs.Feat2 = d2.Text, d2.Denote, d2.Stats
 	cs.BufCap = []int{0, 1, 7, 16, 64, 4096, 100000}[rapid.IntRange(0, 6).Draw(t, "bufCap")]
+	if rapid.IntRange(0, 1).Draw(t, "bufFit") == 0 {
+		// a caller buffer just large enough for the document: the output outgrows it late
+		cs.BufCap = len(cs.Text) + rapid.IntRange(0, 24).Draw(t, "bufSlack")
+	}
 	cs.FreshPools = rapid.IntRange(0, 15).Draw(t, "freshPools") == 0
 	return cs
 }
@@ -237,10 +241,14 @@ func check(c *pbt.Ctx, cs Case) {
 	}
 	keep := append([]byte(nil), out...)
 	// DoInto with the drawn capacity
-	buf := make([]byte, 0, cs.BufCap)
+	buf, guard := pbt.GuardedBuf(cs.BufCap)
 	c.Step("j2t.DoInto cap=%d", cs.BufCap)
 	var err2 error
 	if !c.Protect("", func() { err2 = cv.DoInto(ctx, comp.Root, text, &buf) }) {
+		return
+	}
+	if g := guard(buf); g != "" {
+		c.Failf("buffer-overflow", "DoInto(cap=%d): %s\ndocument: %s", cs.BufCap, g, cs.Show)
 		return
 	}
 	if err2 != nil || !bytes.Equal(buf, want) {
